@@ -1,14 +1,511 @@
 /-
-C17 — mesh joins yield distinct working addresses; lookups give documented codes (statements in progress).
+C17 — "Mesh joins yield distinct working addresses; lookups give documented codes."
+
+On a loss-free medium, every mesh node that calls renew_address() while a master (and any
+already-joined nodes) is running returns, within the given timeout, a valid address different from
+every other connected node's and recorded under its ID in the master's table; afterwards a message
+sent to its node ID arrives at that node.  lookup_address()/lookup_node_id() return the master's
+current mapping, the documented trivial answers for ID/address 0 and None, and the documented
+negative codes (-2 not assigned, -1 no answer) for unknown IDs or addresses, and asking never
+disturbs the master.  release_address() returns the node to the unassigned address and frees its
+lease; check_connection() is True exactly for connected nodes.
+
+Model: `NrfModel/Net/Api.lean` (`meshLookupAddress`, `meshLookupNodeId`, `lookup2Master`,
+`lookupWait`, `meshRelease`, `meshCheckConnection`, `meshSend`, `sendLookupLoop`, `meshRenew`,
+`requestLoop`, `responseWait`, `makeContact`, `pySetAdd`/`pySetItems`), `NrfModel/Net/Node.lean`
+(`nodeUpdate` on the master), `NrfModel/Mesh/Dhcp.lean` (the table, C16).
+Spec: `NrfModel/Spec/MeshProtocol.lean`.
+
+Status
+* complete (every state, every reply content, every behaviour of the other nodes):
+  `C17_lookup_codes`, `C17_lookup_exchange`, `C17_lookup_master`, `C17_accept`, `C17_level`,
+  `C17_set_order`, `C17_release`, `C17_release_master`, `C17_check_connection`, `C17_send`,
+  `C17_send_terminates`.
+* **partial** — `C17_join_partial` / `C17_join_master_partial`: the two ends of a join are proved for
+  every schedule (what the client has established when `renew_address()` returns an address; that
+  the master's table after a request is C16's allocator applied to the table before), the medium in
+  between — that the poll, the request, the response and the double-check lookup reach the other
+  side of a loss-free closed system unaltered and in time — is not composed in Lean (see the
+  comment at `C17_join_partial`); it is exercised by the correspondence runs of
+  `harness/props/c17.py` (real master and 1..12 real joiners on the simulated medium).
 -/
-import NrfModel.Net.Api
+import NrfProofs.MeshJoinK
+import NrfProofs.PySetK
+import NrfProps.C16
 
 namespace Nrf.Props.C17
-open Nrf Nrf.Net
+open Nrf Nrf.Net Nrf.NetK Nrf.Spec Nrf.Spec.MeshProtocol Nrf.Proofs.MeshK Nrf.Proofs.PySetK
 
-/-- the level of an address is the number of its octal digits: 0 for the master, and a child
-    address `via + i·8^level(via)` (0 < i < 8) is exactly one level below `via` — for every `via` -/
-theorem C17_getLevel_zero : getLevel 0 = 0 := by
-  unfold getLevel; simp
+/-! ## lookups -/
+
+/-- **C17, lookup codes: the answers that need no transmission.**  For every state and argument:
+    `lookup_address(0)` is 0; on a node without an address every other ID gives `-2`; on the master
+    the answer is the table's (`-2` for an unknown ID); in all three cases **nothing at all
+    happens** (no radio traffic, no time, no change of any node) — only a connected non-master node
+    asks the master (`C17_lookup_exchange`).  Likewise `lookup_node_id`: `None` gives the node's own
+    ID, address 0 gives 0, `-2` without an address, the table on the master. -/
+theorem C17_lookup_codes (s : NetState) :
+    (∀ nodeId : Int, nexec (meshLookupAddress nodeId) s =
+      if nodeId = 0 then (.ok 0, s)
+      else match roleAddr (curNode s) with
+        | .unassigned => (.ok NOT_ASSIGNED, s)
+        | .master => (.ok (tableAddress (curNode s).dhcp nodeId.toNat), s)
+        | .connected => nexec (lookup2Master nodeId MESH_ADDR_LOOKUP) s) ∧
+    (∀ address : Option Int, nexec (meshLookupNodeId address) s =
+      match address with
+      | none => (.ok ((curNode s).nodeId : Int), s)
+      | some a =>
+        if a = 0 then (.ok 0, s)
+        else match roleId (curNode s) with
+          | .unassigned => (.ok NOT_ASSIGNED, s)
+          | .master => (.ok (tableNodeId (curNode s).dhcp a.toNat), s)
+          | .connected => nexec (lookup2Master a MESH_ID_LOOKUP) s) :=
+  ⟨fun id => nexec_meshLookupAddress id s, fun a => nexec_meshLookupNodeId a s⟩
+
+/-- the same, as the spec's function of role, table and reply: when no exchange is needed -/
+example :
+    MeshProtocol.lookupAddress .unassigned [(7, 0o5)] 7 none = -2 ∧
+    MeshProtocol.lookupAddress .master [(7, 0o5)] 7 none = 0o5 ∧
+    MeshProtocol.lookupAddress .master [(7, 0o5)] 8 none = -2 ∧
+    MeshProtocol.lookupAddress .connected [] 0 none = 0 ∧
+    MeshProtocol.lookupAddress .connected [] 7 none = -1 ∧
+    MeshProtocol.lookupAddress .connected [] 7 (some [0xFE, 0xFF]) = -2 ∧
+    MeshProtocol.lookupNodeId .connected 9 [] none none = 9 := by decide
+
+/-- the roles: an RF24Mesh object with ID 0 and address 0 is the master for both lookups -/
+example : roleAddr { kind := .meshMaster } = .master ∧ roleId { kind := .meshMaster } = .master ∧
+    roleAddr { kind := .meshNode, nodeId := 7, a := { (default : NodeAddr) with addr := 0o4444 } } = .unassigned ∧
+    roleAddr { kind := .meshNode, nodeId := 7, a := { (default : NodeAddr) with addr := 0o5 } } = .connected := by
+  decide
+
+/-- **C17, lookup codes: the exchange with the master.**  For a request that can be built (a node
+    ID that is a byte / an address that fits 16 bits; anything else raises before anything is sent):
+    the lookup frame (a fresh header with a new frame id, to node 0, from the node's address, the
+    lookup type, the packed number) is written; the result is `-1` when `_write` fails, `-1` when no
+    frame of type 196 / 198 is returned by `_net_update()` before the deadline (135 ms after the
+    write), and otherwise the decoded reply: the signed 16-bit little-endian value of its first two
+    bytes, a single byte as it is, `-1` for an empty body — **for every reply content**: the
+    decoder never raises. -/
+theorem C17_lookup_exchange (number : Int) (ty : Nat) (s : NetState) :
+    (∀ body, lookupBody number ty = .ok body →
+      nexec (lookup2Master number ty) s =
+        match nexec (nodeWrite F 0 TX_NORMAL) (lookupSent s ty body) with
+        | (.error e, s1) => (.error e, s1)
+        | (.ok false, s1) => (.ok NO_ANSWER, s1)
+        | (.ok true, s1) =>
+          match nexec (lookupWait (135 * 1000000 + s1.w.clock) F) s1 with
+          | (.error e, s2) => (.error e, s2)
+          | (.ok false, s2) => (.ok NO_ANSWER, s2)
+          | (.ok true, s2) => (.ok (replyValue (curNode s2).frameBuf.message), s2)) ∧
+    (∀ e, lookupBody number ty = .error e →
+      (nexec (lookup2Master number ty) s).1 = .error e ∧ (nexec (lookup2Master number ty) s).2.w = s.w) ∧
+    (0 ≤ number ∧ number < 256 → lookupBody number MESH_ADDR_LOOKUP = .ok [number.toNat]) ∧
+    (0 ≤ number ∧ number < 65536 →
+      lookupBody number MESH_ID_LOOKUP = .ok [number.toNat % 256, number.toNat / 256]) :=
+  ⟨fun body hb => nexec_lookup2Master number ty s body hb,
+   fun e he => nexec_lookup2Master_bad number ty s e he,
+   lookupBody_id number, lookupBody_addr number⟩
+
+/-- the decoder on every kind of body, and one round of the waiting loop -/
+example : replyValue [] = -1 ∧ replyValue [5] = 5 ∧ replyValue [0xFE, 0xFF] = -2 ∧
+    replyValue [0x05, 0x00, 0x77] = 5 ∧ replyValue [0xFF, 0x7F] = 32767 := by decide
+
+example (deadline f : Nat) : lookupWait deadline (f + 1) = (do
+    let t ← netUpdate F 0
+    if t = MESH_ID_LOOKUP ∨ t = MESH_ADDR_LOOKUP then return true
+    if (← nowNs) > deadline then return false
+    lookupWait deadline f) := lookupWait_succ deadline f
+
+/-- **C17, the master answers — and asking never disturbs it.**  The master (class RF24Mesh, ID 0)
+    has received a lookup frame (type 196 with ≥ 1 byte, 198 with ≥ 2 bytes; its table fits signed 16
+    bits, as every table satisfying C16's invariant does).  Then `update()`
+
+    * turns the frame around and replaces its body by the signed 16-bit encoding of the table's
+      answer — `0` for ID / address 0, `-2` when the master has abandoned address 0 or the table has
+      no entry, else the entry — without raising, and writes it to the asker (`TX_NORMAL`);
+    * a client decoding that body gets exactly the table's answer;
+    * **the lease table, `_do_dhcp`, class, ID, address and configuration of the master are
+      unchanged afterwards** — however the call ends and whatever the other nodes do meanwhile
+      (no request pending). -/
+theorem C17_lookup_master (f msgT : Nat) (s : NetState) (g : Good s)
+    (hk : (curNode s).kind = .meshMaster) (hid : (curNode s).nodeId = 0)
+    (hm : msgT = MESH_ADDR_LOOKUP ∨ msgT = MESH_ID_LOOKUP)
+    (hl : Mesh.lookupLongEnough msgT (curNode s).frameBuf.message = true)
+    (ht : TableSmall (curNode s).dhcp) :
+    nexec (masterPart f msgT) s =
+      nexec (do
+        let _ ← nodeWrite f (curNode s).frameBuf.header.fromNode TX_NORMAL
+        masterDhcp f
+        pure msgT) (lookupAnswered s msgT) ∧
+    (curNode (lookupAnswered s msgT)).frameBuf.message = replyBytes (lookupAnswer (curNode s) msgT) ∧
+    (curNode (lookupAnswered s msgT)).frameBuf.header.toNode = (curNode s).frameBuf.header.fromNode ∧
+    replyValue (replyBytes (lookupAnswer (curNode s) msgT)) = lookupAnswer (curNode s) msgT ∧
+    ((curNode s).doDhcp = false →
+      TabKeeps (curNode s) (curNode (nexec (masterPart f msgT) s).2) ∧
+      (nexec (masterPart f msgT) s).2.cur = s.cur) := by
+  obtain ⟨_, _, h3, _, h5, _⟩ := lookupAnswered_node s msgT g.exists_
+  exact ⟨nexec_masterPart_lookup f msgT s g.exists_ hk hid hm hl ht, h5, h3,
+    replyValue_replyBytes (lookupAnswer_range _ _ ht),
+    fun hd => masterPart_lookup_keeps f msgT s g hk hid hm hl ht hd⟩
+
+/-- a master that has just received `lookup_address(7)` from node 0o3 -/
+def exMaster : NetState :=
+  { nodes := [{ kind := .meshMaster, retSysMsg := true, dhcp := [(7, 0o5), (9, 0o4)],
+                a := { (default : NodeAddr) with addr := 0 },
+                frameBuf := { header := { fromNode := 0o3, toNode := 0, frameId := 4, msgType := .int 196 },
+                              message := [7] } }],
+    active := [0], w := World.fresh 1 }
+
+example : Good exMaster ∧ (curNode exMaster).kind = .meshMaster ∧ (curNode exMaster).nodeId = 0 ∧
+    Mesh.lookupLongEnough MESH_ADDR_LOOKUP (curNode exMaster).frameBuf.message = true ∧
+    (curNode exMaster).doDhcp = false ∧ lookupAnswer (curNode exMaster) MESH_ADDR_LOOKUP = 0o5 ∧
+    replyBytes (0o5 : Int) = [5, 0] ∧ replyBytes (-2 : Int) = [0xFE, 0xFF] :=
+  ⟨⟨by decide, by decide⟩, by decide, by decide, by decide, by decide, by decide, by decide, by decide⟩
+
+/-- `masterPart` is what `update()` does after `_net_update()`; the table's answer in words -/
+example (f : Nat) : nodeUpdate (f + 1) = (do let msgT ← netUpdate f 0; masterPart f msgT) :=
+  nodeUpdate_succ f
+
+example : lookupAnswer { dhcp := [(7, 0o5)], a := { (default : NodeAddr) with addr := 0 },
+                         frameBuf := { message := [7] } } MESH_ADDR_LOOKUP = 0o5 ∧
+    lookupAnswer { dhcp := [(7, 0o5)], a := { (default : NodeAddr) with addr := 0 },
+                   frameBuf := { message := [9] } } MESH_ADDR_LOOKUP = -2 ∧
+    lookupAnswer { dhcp := [(7, 0o5)], a := { (default : NodeAddr) with addr := 0 },
+                   frameBuf := { message := [5, 0] } } MESH_ID_LOOKUP = 7 ∧
+    TableSmall [(7, 0o5)] := by
+  refine ⟨by decide, by decide, by decide, ?_⟩
+  intro e he
+  simp only [List.mem_singleton] at he
+  subst he
+  decide
+
+/-- every table that satisfies C16's invariant fits -/
+theorem C17_table_small {t : Mesh.Table} (h : Inv t) : TableSmall t := by
+  intro e he
+  have h1 := h.idByte e.1 e.2 he
+  have h2 := Nrf.Proofs.Lease.leasable_lt (h.leasable e.1 e.2 he)
+  omega
+
+example : TableSmall ([] : Mesh.Table) := C17_table_small Nrf.Proofs.Lease.inv_nil
+
+/-! ## joining: the acceptance test -/
+
+/-- **C17, acceptance.**  Whatever frames arrive and whenever: if the waiting loop of
+    `_request_address` for `contact` ends with an address `v`, then either `v` was carried over from
+    an earlier contact of the same call (Python does not reset `new_addr`; it had been accepted
+    there), or it was taken from `frame_buf` right after a `_net_update()` that returned type 128,
+    with `reserved` = the node's own ID, the 16-bit body = `v`, and `v` lying below the contact: the
+    contact's octal digits are the low-order digits of `v`. -/
+theorem C17_accept (contact deadline fuel : Nat) (carried : Option Nat) (s : NetState) (v : Nat)
+    (s' : NetState) (h : nexec (responseWait contact deadline fuel carried) s = (.ok (some v), s')) :
+    carried = some v ∨
+      ((∃ s1, nexec (netUpdate F 0) s1 = (.ok MESH_ADDR_RESPONSE, s')) ∧
+       (curNode s').frameBuf.header.reserved = (curNode s').nodeId ∧
+       unpackH (pySlice (curNode s').frameBuf.message 0 2) = .ok v ∧
+       v % 8 ^ octLen contact = contact) := by
+  rcases responseWait_accepts contact deadline fuel carried s v s' h with h1 | h1
+  · exact Or.inl h1
+  · refine Or.inr ⟨h1.response, h1.ownId, h1.offered, ?_⟩
+    have := h1.lies
+    unfold below at this
+    simpa using this
+
+/-- the hypothesis is satisfiable: with the deadline already passed the loop returns what it was
+    given (the "carried over" case); the other case is witnessed by every join of the
+    correspondence runs (e.g. `net 2 1 new m master 0 0 ; new x0 mesh 1 9 ; x0 renew 1500`, where
+    the model — `nrfdrv` — returns 5) -/
+example (s : NetState) : nexec (responseWait 0o5 0 1 (some 0o25)) s = (.ok (some 0o25), s) := by
+  rw [responseWait.eq_2]
+  simp only [nexec_bind, nexec_nowNs, Nat.not_lt_zero, ↓reduceIte, nexec_pure]
+
+/-- the spec's acceptance predicate says the same -/
+example : accepts 7 (val [5]) 128 7 (child [5] 2) = true ∧ (∀ c v, accepts 7 c 128 8 v = false) ∧
+    (∀ c v, accepts 7 c 127 7 v = false) := by
+  refine ⟨?_, fun _ _ => by simp [accepts], fun _ _ => by simp [accepts]⟩
+  simp [accepts, below_child (via := [5]) (by decide) 2]
+
+/-- **C17, levels.**  The level the code computes (`_get_level`: shifts until zero) is the number
+    of octal digits; the mask `new_addr & ~(0xFFFF << 3·level)` keeps that many low digits; and for
+    every valid contact `via` the direct child the master offers (`C16_child`: `via + i·8^level`)
+    passes the test. -/
+theorem C17_level :
+    (∀ a, getLevel a = octLen a) ∧
+    (∀ ds, DigitsOk ds → octLen (val ds) = ds.length) ∧
+    (∀ contact v, decide (v % 2 ^ (getLevel contact * 3) = contact) = below contact v) ∧
+    (∀ via i, DigitsOk via → below (val via) (child via i) = true) :=
+  ⟨getLevel_eq_octLen, fun _ h => octLen_val h, test_eq_below, fun _ i h => below_child h i⟩
+
+example : octLen (val [5, 4, 3]) = 3 ∧ val [5, 4, 3] = 0o345 ∧ child [5] 2 = 0o25 ∧
+    below (val [5]) (child [5] 2) = true :=
+  ⟨octLen_val (by decide), by decide, by decide, below_child (by decide) 2⟩
+
+/-! ## joining: every responder is tried exactly once -/
+
+/-- **C17, iteration order of the set of responders.**  The model of CPython's `set` (8 slots, probe
+    `i ← (5i + 1 + perturb) & 7`, `perturb >>= 5`) keeps the invariant `SetInv` (8 slots, no value
+    twice, every value reachable by its own probe) under `add`; `add` of a present value changes
+    nothing, of a new one makes the set exactly one larger; and after any sequence of insertions as
+    `_make_contact` makes them (only while fewer than 4 are held) iteration yields no value twice,
+    only inserted values, at most 4 — and **every** inserted value if the set ended with fewer than
+    4 (so each responder is tried exactly once). -/
+theorem C17_set_order :
+    SetInv (List.replicate 8 none) ∧
+    (∀ slots h, SetInv slots → (pySetItems slots).length < 8 → h < 2 ^ 40 →
+      SetInv (pySetAdd slots h) ∧
+      (∀ x, x ∈ pySetItems (pySetAdd slots h) ↔ x = h ∨ x ∈ pySetItems slots) ∧
+      (h ∈ pySetItems slots → pySetAdd slots h = slots) ∧
+      (h ∉ pySetItems slots → (pySetItems (pySetAdd slots h)).length = (pySetItems slots).length + 1)) ∧
+    (∀ hs : List Nat, (∀ h ∈ hs, h < 2 ^ 40) →
+      (pySetItems (hs.foldl guardedAdd (List.replicate 8 none))).Nodup ∧
+      (pySetItems (hs.foldl guardedAdd (List.replicate 8 none))).length ≤ 4 ∧
+      (∀ x, x ∈ pySetItems (hs.foldl guardedAdd (List.replicate 8 none)) → x ∈ hs) ∧
+      ((pySetItems (hs.foldl guardedAdd (List.replicate 8 none))).length < 4 →
+        ∀ x, x ∈ hs → x ∈ pySetItems (hs.foldl guardedAdd (List.replicate 8 none)))) := by
+  refine ⟨setInv_empty, fun slots h hi hc hh => setInv_add hi hc hh, fun hs hh => ?_⟩
+  obtain ⟨r1, r2, r3, _, r5⟩ := guardedAdd_fold hs hh _ setInv_empty (by decide)
+  refine ⟨r1.nodup, r2, fun x hx => ?_, r5⟩
+  rcases r3 x hx with h | h
+  · have he : pySetItems (List.replicate 8 none) = [] := by decide
+    rw [he] at h; cases h
+  · exact h
+
+/-- responders 0o3, 0o13, 0o3 again, 0 (the master): iteration gives each once, in slot order -/
+example : pySetItems ([0o3, 0o13, 0o3, 0].foldl guardedAdd (List.replicate 8 none)) = [0o13, 0, 0o3] := by
+  decide
+
+/-! ## release -/
+
+/-- **C17, `release_address()`.**  Without an address: `False`, nothing at all happens.  With an
+    address: the frame — type 197, to node 0, from the node's address, empty body — is written to
+    the master; if `_write` reports success the node re-begins at 0o4444 and the call returns
+    `True` (afterwards `node_address = 0o4444`); if not it returns `False` and keeps its address. -/
+theorem C17_release (s : NetState) :
+    nexec meshRelease s =
+      (if (curNode s).a.addr = NETWORK_DEFAULT_ADDR then (.ok false, s)
+       else match nexec (nodeWrite F 0 TX_NORMAL) (releaseSent s) with
+        | (.error e, s1) => (.error e, s1)
+        | (.ok false, s1) => (.ok false, s1)
+        | (.ok true, s1) =>
+          match nexec (begin NETWORK_DEFAULT_ADDR) s1 with
+          | (.error e, s2) => (.error e, s2)
+          | (.ok _, s2) => (.ok true, s2)) ∧
+    (∀ s1 s2, Good s1 → nexec (begin NETWORK_DEFAULT_ADDR) s1 = (.ok (), s2) →
+      (curNode s2).a.addr = MeshProtocol.UNASSIGNED ∧ s2.cur = s1.cur) ∧
+    (HasCur s → (curNode (releaseSent s)).frameBuf.header.ty = 197 ∧
+      (curNode (releaseSent s)).frameBuf.header.toNode = 0 ∧
+      (curNode (releaseSent s)).frameBuf.header.fromNode = (curNode s).a.addr ∧
+      (curNode (releaseSent s)).frameBuf.message = []) := by
+  refine ⟨nexec_meshRelease s, fun s1 s2 g h => ?_, fun hc => ?_⟩
+  · have := begin_ok_addr NETWORK_DEFAULT_ADDR s1 s2 g h
+    exact ⟨this.1, this.2.1⟩
+  · unfold releaseSent
+    rw [curNode_updCur _ _ hc]
+    exact ⟨rfl, rfl, rfl, rfl⟩
+
+example : MeshProtocol.UNASSIGNED = 0o4444 ∧ NETWORK_DEFAULT_ADDR = MeshProtocol.UNASSIGNED := ⟨rfl, rfl⟩
+
+/-- **C17, the master frees the lease.**  The master handles a release frame (type 197) from address
+    `a ≠ 0`: nothing is transmitted for it; the table afterwards is the table of C16's
+    `release_address(a)`: **exactly the lease on `a` is removed** (`C16_release`), the invariant is
+    kept. -/
+theorem C17_release_master (f : Nat) (s : NetState) (hc : HasCur s)
+    (hk : (curNode s).kind = .meshMaster) (hid : (curNode s).nodeId = 0)
+    (ha : (curNode s).frameBuf.header.fromNode ≠ 0) :
+    nexec (masterPart (f + 1) MESH_ADDR_RELEASE) s =
+      nexec (do masterDhcp (f + 1); pure MESH_ADDR_RELEASE)
+        (updCur s fun n => { n with dhcp :=
+          (Mesh.releaseScan n.dhcp (curNode s).frameBuf.header.fromNode n.dhcp).1 }) ∧
+    (Inv (curNode s).dhcp →
+      Inv (Mesh.releaseScan (curNode s).dhcp (curNode s).frameBuf.header.fromNode (curNode s).dhcp).1 ∧
+      ∀ j b, (j, b) ∈ (Mesh.releaseScan (curNode s).dhcp (curNode s).frameBuf.header.fromNode (curNode s).dhcp).1
+        ↔ b ≠ (curNode s).frameBuf.header.fromNode ∧ (j, b) ∈ (curNode s).dhcp) := by
+  refine ⟨nexec_masterPart_release f s hc hk hid ha, fun hinv => ?_⟩
+  have h := Nrf.Props.C16.C16_release hinv { table := (curNode s).dhcp } rfl 0 true ha
+  rw [← release_table (curNode s).dhcp _ 0 true ha false] at h
+  exact ⟨h.1, h.2.1⟩
+
+example : (Mesh.releaseScan [(7, 0o5), (8, 0o4)] 0o5 [(7, 0o5), (8, 0o4)]).1 = [(8, 0o4)] := by decide
+
+/-! ## check_connection -/
+
+/-- **C17, `check_connection(attempts, ping_master)`: the truth table.**  ID 0 ⇒ `True`, no address
+    ⇒ `False`, both without any transmission; otherwise up to `attempts` attempts (none ⇒ `False`):
+    with `ping_master` the master is asked for the node's own ID — `-2` ⇒ `False`, the node's own
+    address ⇒ `True`, anything else (`-1`, another address) ⇒ next attempt; without it a
+    NETWORK_PING is written to the parent — delivered ⇒ `True`, else next attempt. -/
+theorem C17_check_connection (s : NetState) (pingMaster : Bool) :
+    (∀ attempts, nexec (meshCheckConnection attempts pingMaster) s =
+      if (curNode s).nodeId = 0 then (.ok true, s)
+      else if (curNode s).a.addr = NETWORK_DEFAULT_ADDR then (.ok false, s)
+      else nexec (meshCheckConnection.go pingMaster attempts) s) ∧
+    nexec (meshCheckConnection.go pingMaster 0) s = (.ok false, s) ∧
+    (∀ k, nexec (meshCheckConnection.go true (k + 1)) s =
+      match nexec (meshLookupAddress ((curNode s).nodeId : Int)) s with
+      | (.error e, s1) => (.error e, s1)
+      | (.ok r, s1) =>
+        match pingVerdict (curNode s).a.addr r with
+        | .notConnected => (.ok false, s1)
+        | .connected => (.ok true, s1)
+        | .retry => nexec (meshCheckConnection.go true k) s1) ∧
+    (∀ k, nexec (meshCheckConnection.go false (k + 1)) s =
+      match nexec (meshWrite (curNode s).a.parent (NETWORK_PING : Nat) []) s with
+      | (.error e, s1) => (.error e, s1)
+      | (.ok true, s1) => (.ok true, s1)
+      | (.ok false, s1) => nexec (meshCheckConnection.go false k) s1) :=
+  ⟨fun a => nexec_meshCheckConnection a pingMaster s, nexec_checkGo_zero pingMaster s,
+   fun k => nexec_checkGo_ping k s, fun k => nexec_checkGo_parent k s⟩
+
+example : pingVerdict 0o5 (-2) = .notConnected ∧ pingVerdict 0o5 0o5 = .connected ∧
+    pingVerdict 0o5 (-1) = .retry ∧ pingVerdict 0o5 0o4 = .retry := by decide
+
+/-! ## send -/
+
+/-- **C17, `send(to_node_id, type, message)`.**  Without an address: `False`, nothing happens.  The
+    node's own ID maps to its own address, ID 0 (on a non-master) to address 0, both without a
+    lookup.  Any other ID is resolved by the lookup loop; no answer by the deadline ⇒ `False`; an
+    answer `a` ⇒ the message is written to **address `a`, whatever its value** — it is not compared
+    with the node's own ID again (fix 9861807: node ID 4 sending to the node that holds address 0o4
+    used to write into its own queue). -/
+theorem C17_send (toId : Nat) (ty : Int) (msg : Bytes) (s : NetState) :
+    nexec (meshSend toId ty msg) s =
+      if (curNode s).a.addr = NETWORK_DEFAULT_ADDR then (.ok false, s)
+      else if toId ≠ 0 ∧ toId ≠ (curNode s).nodeId then
+        match nexec (sendLookupLoop toId (115 * 1000000 + s.w.clock) 1000 5) s with
+        | (.error e, s1) => (.error e, s1)
+        | (.ok none, s1) => (.ok false, s1)
+        | (.ok (some a), s1) => nexec (meshWrite a.toNat ty msg) s1
+      else if toId = (curNode s).nodeId then nexec (meshWrite (curNode s).a.addr ty msg) s
+      else nexec (meshWrite toId ty msg) s :=
+  nexec_meshSend toId ty msg s
+
+/-- one round of the lookup loop: look up; past the deadline ⇒ give up; a negative code ⇒ sleep
+    `retry_delay` ms (5, 15, 25, …) and retry; else the address -/
+example (toId deadline f retryDelay : Nat) :
+    sendLookupLoop toId deadline (f + 1) retryDelay = (do
+      let a ← meshLookupAddress toId
+      if (← nowNs) ≥ deadline then return none
+      if a < 0 then
+        sleepNs (retryDelay * 1000000)
+        sendLookupLoop toId deadline f (retryDelay + 10)
+      else return some a) := sendLookupLoop_succ toId deadline f retryDelay
+
+/-- **C17, the lookup loop of `send()` ends by its deadline** — for every reply pattern, every
+    behaviour of the other nodes (closed system): started as an existing node on the call stack
+    with the deadline 115 ms ahead, the loop never runs out of its fuel; an exception out of it is
+    one that a `lookup_address()` call itself raised.  (5 + 15 + 25 + 35 + 45 ms of sleeping exceed
+    115 ms, and no call moves a node's clock backwards: at most six lookups.) -/
+theorem C17_send_terminates (toId : Nat) (s : NetState) (g : Good s) (e : PyErr)
+    (he : (nexec (sendLookupLoop toId (115 * 1000000 + s.w.clock) 1000 5) s).1 = .error e) :
+    ∃ s', Good s' ∧ (nexec (meshLookupAddress toId) s').1 = .error e :=
+  sendLookupLoop_ends toId s g e he
+
+example : 115 * 1000000 ≤ sleepBudget 5 5 ∧ sleepBudget 5 5 = 125000000 := by decide
+
+/-! ## joining
+
+Full statement (not proved as one theorem):
+
+  In a closed loss-free system with a master that is listening and a free level-1 slot, a node with
+  ID `id ≠ 0` calling `renew_address(timeout)` (one joiner at a time) returns `some a` with `a` a valid
+  address, `(id, a)` in the master's table, distinct from every other lease, and `_begin(a)` done.
+
+What is proved, for **every** schedule, arrival pattern and timing:
+
+* client (`C17_join_partial`): if `renew_address()` returns `some a`, then `a` is the node's
+  `node_address`, its ID is unchanged, `a` passed the acceptance test for some contact (`C17_accept`:
+  a type-128 frame with `reserved = id` whose body `a` lies below the contact), and a
+  `lookup_node_id(a)` made after `_begin(a)` returned `id` — i.e. (by `C17_lookup_exchange` /
+  `C17_lookup_master`) a reply frame decoded to `id`, which the master sends exactly when its table
+  maps `a` to `id`;
+* master (`C17_join_master_partial`): after `update()` handled a request frame (type 195,
+  `reserved = id ≠ 0`) the table is `Mesh.dhcp` of the table before — so `C16_inv`, `C16_single`,
+  `C16_child` (`a = via + i·8^level(via)`, valid, ≠ 0, ≠ 0o4444, not leased to another ID) hold
+  for it — however the reply's transmission ends.
+
+What remains assumed (not composed in Lean): that in the loss-free closed system the NETWORK_POLL
+multicast is received and answered by the master within the 55 ms window (`C14_receivers`,
+`C14_handle_poll` give the two ends), that the request frame reaches the master's `frame_buf` as
+sent, that the response reaches the joiner's within 225 ms, and that the double-check lookup is
+answered within 135 ms — i.e. the radio-level delivery of these four frames (C01/C02/C05's
+subject) and the responsiveness of the schedule.  Concurrent joiners, POLL-reply timing races and
+packet loss are not quantified at all.
+-/
+
+/-- **C17, join — client side (partial).** -/
+theorem C17_join_partial (id timeoutMs : Nat) (s : NetState) (a : Nat) (s' : NetState)
+    (g : Good s) (hid : (curNode s).nodeId = id)
+    (hnm : ¬ ((curNode s).kind = .meshMaster ∧ (curNode s).nodeId = 0))
+    (h : nexec (meshRenew timeoutMs) s = (.ok (some a), s')) :
+    (curNode s').a.addr = a ∧ (curNode s').nodeId = id ∧ Good s' ∧
+    (∃ contact s1, Accepted contact a s1 ∧ (curNode s1).nodeId = id) ∧
+    (∃ s2 s3, Good s2 ∧ (curNode s2).nodeId = id ∧ (curNode s2).a.addr = a ∧
+      nexec (meshLookupNodeId (some (a : Int))) s2 = (.ok (id : Int), s3)) := by
+  obtain ⟨h1, h2, h3⟩ := meshRenew_some id timeoutMs s a s' ⟨g, hid⟩ hnm h
+  refine ⟨h2, h1.id, h1.good, ?_, ?_⟩
+  · rcases h3.accepted with h4 | h4
+    · exact h4
+    · cases h4
+  · obtain ⟨s2, s3, hs2, ha2, hl⟩ := h3.confirmed
+    exact ⟨s2, s3, hs2.good, hs2.id, ha2, hl⟩
+
+/-- the hypotheses on the state are satisfiable (a mesh node with ID 9 on the call stack); that
+    `renew_address()` does return an address is witnessed by the correspondence runs: on
+    `net 2 1 new m master 0 0 ; new x0 mesh 1 9 ; x0 renew 1500` model and code both return 5 -/
+example : let s : NetState := { nodes := [{ kind := .meshNode, nodeId := 9 }], active := [0], w := World.fresh 1 }
+    Good s ∧ (curNode s).nodeId = 9 ∧ ¬ ((curNode s).kind = .meshMaster ∧ (curNode s).nodeId = 0) :=
+  ⟨⟨by decide, by decide⟩, by decide, by decide⟩
+
+/-- the master itself: `renew_address()` is 0 at once -/
+example (t : Nat) (s : NetState) (h : (curNode s).kind = .meshMaster ∧ (curNode s).nodeId = 0) :
+    nexec (meshRenew t) s = (.ok (some 0), s) := by
+  unfold meshRenew
+  simp only [nexec_bind, nexec_getNode, h, and_self, ↓reduceIte, nexec_pure]
+
+/-- **C17, join — master side (partial).**  The master (class RF24Mesh, ID 0, nothing pending) has
+    received an address request carrying an ID: after `update()`, however the reply's transmission
+    ends and whatever the other nodes do, its table is C16's allocator applied to the table before
+    (`from_node` and `reserved` as in the frame), and `_do_dhcp` is clear again. -/
+theorem C17_join_master_partial (f : Nat) (s : NetState) (g : Good s)
+    (hk : (curNode s).kind = .meshMaster) (hid : (curNode s).nodeId = 0)
+    (hr : (curNode s).frameBuf.header.reserved ≠ 0) (w1 : Bool) :
+    (curNode (nexec (masterPart (f + 1) MESH_ADDR_REQUEST) s).2).dhcp =
+      (Mesh.dhcp (curNode s).dhcp (curNode s).frameBuf.header.fromNode
+        (curNode s).frameBuf.header.reserved w1).1 ∧
+    (curNode (nexec (masterPart (f + 1) MESH_ADDR_REQUEST) s).2).doDhcp = false := by
+  have := masterPart_request f s g hk hid hr
+  refine ⟨this.1.trans ?_, this.2⟩
+  unfold dhcpTable
+  exact dhcp_table_w1 _ _ _ true w1
+
+/-- **C17, the lease a join creates is valid and distinct** (C16 applied to the node layer).  If
+    the master's table satisfies C16's invariant and the request carries a byte ID and comes from
+    the unassigned address or a relay of level 0..3, then after `update()` — however the reply's
+    transmission ends — the table satisfies the invariant again: the address recorded for the ID
+    is a valid logical address, not 0, not 0o4444, the ID's only lease, and **no other ID holds
+    it**. -/
+theorem C17_join_lease (f : Nat) (s : NetState) (g : Good s)
+    (hk : (curNode s).kind = .meshMaster) (hid : (curNode s).nodeId = 0)
+    (hr : (curNode s).frameBuf.header.reserved ≠ 0) (hr8 : (curNode s).frameBuf.header.reserved ≤ 255)
+    (hfrom : Nrf.Props.C16.FromOk (curNode s).frameBuf.header.fromNode) (hinv : Inv (curNode s).dhcp) :
+    Inv (curNode (nexec (masterPart (f + 1) MESH_ADDR_REQUEST) s).2).dhcp ∧
+    ∀ a, ((curNode s).frameBuf.header.reserved, a) ∈ (curNode (nexec (masterPart (f + 1) MESH_ADDR_REQUEST) s).2).dhcp →
+      isValid a = true ∧ a ≠ 0 ∧ a ≠ 0o4444 ∧
+      (∀ j, (j, a) ∈ (curNode (nexec (masterPart (f + 1) MESH_ADDR_REQUEST) s).2).dhcp →
+        j = (curNode s).frameBuf.header.reserved) ∧
+      (∀ b, ((curNode s).frameBuf.header.reserved, b) ∈
+        (curNode (nexec (masterPart (f + 1) MESH_ADDR_REQUEST) s).2).dhcp → b = a) := by
+  have ht := (C17_join_master_partial f s g hk hid hr true).1
+  have hinv' := Nrf.Props.C16.C16_request_inv hinv hfrom hr8 true
+  rw [← ht] at hinv'
+  refine ⟨hinv', fun a ha => ?_⟩
+  obtain ⟨w1, w2, w3⟩ := Nrf.Props.C16.C16_inv_words hinv'
+  obtain ⟨_, h0, h4, hv⟩ := w3 _ a ha
+  exact ⟨hv, h0, h4, fun j hj => w1 j _ a hj ha, fun b hb => w2 _ b a hb ha⟩
+
+example : Nrf.Props.C16.FromOk 0o4444 ∧ Nrf.Props.C16.FromOk 0o5 ∧ Inv ([] : Mesh.Table) :=
+  ⟨Or.inl rfl, Or.inr ⟨[5], by decide, by decide, by decide⟩, Nrf.Proofs.Lease.inv_nil⟩
+
+/-- the first joiner (ID 7) reaching the master directly gets 0o5, as C16 says -/
+example : (Mesh.dhcp [] 0o4444 7 true).1 = [(7, 0o5)] := by decide
 
 end Nrf.Props.C17
